@@ -944,4 +944,7 @@ def check(run):
     run.rule('R3', r3_case_insensitive, 'get_header folds the case of the requested name before the table lookup', floor=4)
     run.rule('R4', r4_writer_reader, 'date / entity-tag writers agree with their readers', floor=6)
     run.rule('R6', r6_range, 'Range decision table (RFC 9110 14.1.2)', floor=10)
+    from . import c06 as _c06
+
+    run.rule('R8', _c06.r6_access_route_tail, 'access_route: both stacks append the connecting peer under the same condition (shared with C06 R6)', floor=1)
     run.rule('R7', r7_forwarded_case, 'Forwarded: only parameter names and the scheme are case-folded', floor=2)
